@@ -397,10 +397,14 @@ pub fn replay_main(prop: &'static dyn Prop, path: &Path, raw: bool) -> i32 {
     let pid = prop.id();
     let shown = path.display().to_string();
     // a replayed case that does not terminate is reported instead of hanging the replay
-    std::thread::spawn(move || {
-        if rx.recv_timeout(Duration::from_secs(HANG_CONFIRM_SECS + 60)).is_err() {
+    std::thread::spawn(move || loop {
+        if !matches!(rx.recv_timeout(Duration::from_secs(1)), Err(std::sync::mpsc::RecvTimeoutError::Timeout)) {
+            break;
+        }
+        // (CPU time of this process, so that a loaded machine cannot make a slow case look like a hang)
+        if process_cpu_secs(std::process::id()).is_some_and(|c| c > (HANG_CONFIRM_SECS + 60) as f64) {
             println!("signature: hang");
-            println!("detail: the case did not finish within {} s", HANG_CONFIRM_SECS + 60);
+            println!("detail: the case did not finish within {} s of CPU time", HANG_CONFIRM_SECS + 60);
             println!("VIOLATION property={} replay={}", pid, shown);
             std::process::exit(1);
         }
@@ -524,16 +528,21 @@ pub fn parent_main(prop: &'static dyn Prop, tier: Tier, seed: u64) -> i32 {
                     if hang_path.exists() {
                         // a case has been running for HANG_REPORT_SECS: does it also fail to finish in a fresh process?
                         if let Some((_p, mode, data)) = load_replay(&hang_path) {
-                            let f = Failure { sig: format!("hang/{}", mode), detail: format!("the case did not finish within {} s in the {} worker nor within {} s replayed alone in a fresh process", HANG_REPORT_SECS, c.profile, HANG_CONFIRM_SECS) };
+                            let f = Failure { sig: format!("hang/{}", mode), detail: format!("the case did not finish within {} s in the {} worker nor within {} s of CPU time replayed alone in a fresh process", HANG_REPORT_SECS, c.profile, HANG_CONFIRM_SECS) };
                             let path = write_replay(prop.id(), &mode, c.profile, &data, &f);
-                            match run_replay_probe(c.profile, prop.id(), Path::new(&path), &root, HANG_CONFIRM_SECS) {
-                                Err(()) => {
+                            match run_replay_probe_cpu(c.profile, prop.id(), Path::new(&path), &root, HANG_CONFIRM_SECS, 20 * HANG_CONFIRM_SECS) {
+                                Probe::CpuTimeout => {
                                     violations.push((f.sig, f.detail, path));
                                     hang_confirmed = true;
                                     let _ = c.child.kill();
                                     let _ = c.child.wait();
                                     let _ = std::fs::remove_file(&hang_path);
                                     break None;
+                                }
+                                Probe::WallTimeout => {
+                                    // neither finished nor computing: the machine is too loaded to tell
+                                    let _ = std::fs::remove_file(&path);
+                                    slow_notes.push(format!("{}: a case ran for more than {} s in the worker and its replay got less than {} s of CPU time in {} s (machine load): undecided", c.profile, HANG_REPORT_SECS, HANG_CONFIRM_SECS, 20 * HANG_CONFIRM_SECS));
                                 }
                                 _ => {
                                     let _ = std::fs::remove_file(&path);
@@ -556,9 +565,27 @@ pub fn parent_main(prop: &'static dyn Prop, tier: Tier, seed: u64) -> i32 {
         match status {
             None if hang_confirmed => {}
             None => inconclusive.push(format!("{} worker exceeded the watchdog", c.profile)),
-            Some(st) if st.success() => match std::fs::read_to_string(&c.out).ok().and_then(|t| serde_json::from_str::<Value>(&t).ok()) {
-                Some(v) => results.push((c.profile, v)),
-                None => inconclusive.push(format!("{} worker wrote no result", c.profile)),
+            Some(st) if st.success() => match {
+                // (read again a few times before giving up: the file is written just before the worker exits)
+                let mut got = None;
+                let mut why = String::new();
+                for _ in 0..20 {
+                    match std::fs::read_to_string(&c.out) {
+                        Ok(t) => match serde_json::from_str::<Value>(&t) {
+                            Ok(v) => {
+                                got = Some(v);
+                                break;
+                            }
+                            Err(e) => why = format!("unparsable result ({} bytes): {}", t.len(), e),
+                        },
+                        Err(e) => why = format!("unreadable result {}: {}", c.out.display(), e),
+                    }
+                    std::thread::sleep(Duration::from_millis(100));
+                }
+                got.ok_or(why)
+            } {
+                Ok(v) => results.push((c.profile, v)),
+                Err(why) => inconclusive.push(format!("{} worker wrote no result: {}", c.profile, why)),
             },
             Some(st) => {
                 // abort-class: find which thread's current case kills a fresh process
@@ -743,6 +770,56 @@ fn run_replay_probe(profile: &str, prop: &str, path: &Path, root: &Path, secs: u
                 std::thread::sleep(Duration::from_millis(10));
             }
             Err(_) => return Err(()),
+        }
+    }
+}
+
+/// CPU time (user + system) a live process has used so far, in seconds (from /proc/<pid>/stat).
+fn process_cpu_secs(pid: u32) -> Option<f64> {
+    let t = std::fs::read_to_string(format!("/proc/{}/stat", pid)).ok()?;
+    // the command name may contain spaces: fields are counted after the closing parenthesis
+    let rest = &t[t.rfind(')')? + 2..];
+    let f: Vec<&str> = rest.split_whitespace().collect();
+    let utime: f64 = f.get(11)?.parse().ok()?;
+    let stime: f64 = f.get(12)?.parse().ok()?;
+    let hz = unsafe { libc::sysconf(libc::_SC_CLK_TCK) } as f64;
+    Some((utime + stime) / if hz > 0.0 { hz } else { 100.0 })
+}
+
+pub enum Probe {
+    Exited(Option<i32>),
+    /// used more CPU time than allowed: it is computing, not waiting for the machine
+    CpuTimeout,
+    /// still alive after the (much longer) wall-clock allowance without having used the CPU allowance
+    WallTimeout,
+    SpawnFailed,
+}
+
+/// Run a replay subprocess; the allowance that decides "does not terminate" is CPU time, so that a loaded machine
+/// cannot turn a slow case into a hang report.
+fn run_replay_probe_cpu(profile: &str, prop: &str, path: &Path, root: &Path, cpu_secs: u64, wall_secs: u64) -> Probe {
+    let mut child = match Command::new(exe_for(profile)).arg(prop).arg("--replay").arg(path).env("VERIF_ROOT", root).stdout(Stdio::null()).stderr(Stdio::null()).spawn() {
+        Ok(c) => c,
+        Err(_) => return Probe::SpawnFailed,
+    };
+    let start = Instant::now();
+    loop {
+        match child.try_wait() {
+            Ok(Some(st)) => return Probe::Exited(st.code()),
+            Ok(None) => {
+                if process_cpu_secs(child.id()).is_some_and(|c| c > cpu_secs as f64) {
+                    let _ = child.kill();
+                    let _ = child.wait();
+                    return Probe::CpuTimeout;
+                }
+                if start.elapsed() > Duration::from_secs(wall_secs) {
+                    let _ = child.kill();
+                    let _ = child.wait();
+                    return Probe::WallTimeout;
+                }
+                std::thread::sleep(Duration::from_millis(50));
+            }
+            Err(_) => return Probe::SpawnFailed,
         }
     }
 }
